@@ -270,10 +270,12 @@ def c06_sem(R):
                     a = ctx.int("a") if k0 != "f" else ctx.real("a")
                     b = c if const_operand else (ctx.int("b") if k1 != "f" else ctx.real("b"))
                     for x, k in ((a, k0), (b, k1)):
-                        if k != "f":
+                        if k == "i":
                             ctx.assume(irsem.in_i32(x.t))
                         if k == "u":
+                            # the whole unsigned range: values from 2^31 on are where signed and unsigned opcodes differ
                             ctx.assume(x.t >= 0)
+                            ctx.assume(x.t < 2 ** 32)
                     if opn in ("DIV", "MOD"):
                         ctx.assume(b != 0)
                         if k0 != "f":
@@ -288,7 +290,8 @@ def c06_sem(R):
                         return [("refused", z3.BoolVal(True), f"handler raised {type(e).__name__}: refusal is acceptable")]
                     code = emitted(gctx)
                     types = [I32, I32, wt(k0), wt(k1), wt(rk)]
-                    locs = [z3.IntVal(0), z3.IntVal(0), a.t, b.t, None]
+                    # simulation relation: an integer local holds the VM value as a 32-bit pattern (two's complement)
+                    locs = [z3.IntVal(0), z3.IntVal(0), a.t if k0 == "f" else wrap32(a.t), b.t if k1 == "f" else wrap32(b.t), None]
                     try:
                         locs2, stack, ret = run_wasm(code, list(locs), types)
                     except Invalid as e:
